@@ -3,8 +3,10 @@ import Tahoe.Storage.LemmasImmLease
 import Tahoe.Storage.LemmasLeaseBucket
 /-!
 C25 — lease semantics (property theorems).  Models: `Tahoe/Storage/Lease.lean` (records, v1/v2
-serializers with an abstract `blake2b`, immutable container), `Tahoe/Storage/Mutable.lean` (mutable
-container), `Tahoe/Storage/Slot.lean` (server-level `add_lease` / `renew_lease`).
+serializers with an abstract `blake2b`, immutable container incl. `cancel_lease`, `createWithLease`,
+`write_share_data`), `Tahoe/Storage/Mutable.lean` (mutable container incl. `cancel_lease`),
+`Tahoe/Storage/Slot.lean` (server-level `add_lease` / `renew_lease` / `allocate_buckets` / upload write and close /
+per-share cancel).  Helper lemmas: `Tahoe/Storage/Lemmas{Lease,ImmLease,Slot,LeaseBucket}.lean`.
 
 Coverage of the statement (properties.jsonl C25), clause → theorem(s):
 * "adding a lease whose renew secret already exists renews that lease … instead of adding a duplicate"
